@@ -124,7 +124,10 @@ pub fn meta(m: &Meta) -> Sx {
     match m {
         Meta::Path(p) => tagged("mpath", vec![path(p)]),
         Meta::List(l) => {
-            let (items, bad) = match NestedMeta::parse_meta_list(l.tokens.clone()) {
+            // the list's arguments split into items by darling's `impl Parse for NestedMeta`, driven by
+            // syn's own scoped argument parser (end-of-input errors point at the closing delimiter)
+            let parsed = l.parse_args_with(syn::punctuated::Punctuated::<NestedMeta, syn::Token![,]>::parse_terminated);
+            let (items, bad) = match parsed.map(|p| p.into_iter().collect::<Vec<_>>()) {
                 Ok(items) => (items.iter().map(nested).collect(), none()),
                 Err(e) => {
                     let (a, b) = sp2(e.span());
